@@ -1,4 +1,6 @@
 // gen.cpp -- plan generators for the codec family (C01 C07 C08 C09 C10) and dispatch
+#include <array>
+
 #include "gen_common.h"
 
 namespace sim
@@ -177,6 +179,9 @@ Plan genCodec(const std::string& prop, int tier, uint64_t batchSeed, uint64_t id
         if ((c09 || c10) && r.chance(1, 5))
             n.set("setids", 0);  // never configured: device 0, stream 0
     }
+    std::vector<std::array<int64_t, 2>> curId(nNodes + 1);
+    for (size_t i = 0; i < nNodes; ++i)
+        curId[i + 1] = {eps[i].first, eps[i].second};
     std::vector<int> kinds = g.pickKindSet();
     int64_t minB, maxB;
     g.pickCtx(minB, maxB);
@@ -206,8 +211,13 @@ Plan genCodec(const std::string& prop, int tier, uint64_t batchSeed, uint64_t id
         {
             Item& op = g.addOp(OP_CMSET, node, 0);
             int what = static_cast<int>(r.below(3));
-            op.set("what", what).set("val", what == 0 ? r.pick<int64_t>({0, 1, 0xFFFF, 0x1234, static_cast<int64_t>(r.below(65536))})
-                                                      : r.pick<int64_t>({0, 1, 0xFF, static_cast<int64_t>(r.below(256))}));
+            int64_t val = what == 0 ? r.pick<int64_t>({0, 1, 0xFFFF, 0x1234, static_cast<int64_t>(r.below(65536))})
+                                    : r.pick<int64_t>({0, 1, 0xFF, static_cast<int64_t>(r.below(256))});
+            if (what < 2 && r.chance(1, 4))
+                val = curId[static_cast<size_t>(node)][what];  // the SAME id again: still a reset
+            if (what < 2)
+                curId[static_cast<size_t>(node)][what] = val;
+            op.set("what", what).set("val", val);
             continue;
         }
         if (!c01 && r.chance(3, 10))
@@ -221,13 +231,19 @@ Plan genCodec(const std::string& prop, int tier, uint64_t batchSeed, uint64_t id
         size_t nMsg;
         if (wrapRun)
             nMsg = 1;
-        else if ((c07 || c10) && r.chance(1, 12))
+        else if ((c07 || c10 || c09) && r.chance(1, 12))
             nMsg = 0;  // empty batch
         else if (c07 || c08)
             nMsg = r.chance(1, 6) ? 13 + r.below(28) : 1 + r.below(12);
         else
             nMsg = 1 + r.below(12);
-        const bool swarmOfTiny = !wrapRun && !c09 && r.chance(1, 40);  // > 127 / > 255 messages in one frame
+        const bool manyFrames = !wrapRun && r.chance(1, 40);  // more than 255 frames out of ONE call
+        if (manyFrames)
+        {
+            maxB = r.range(25, 60);
+            minB = r.chance(1, 2) ? 0 : r.range(0, maxB);
+        }
+        const bool swarmOfTiny = !wrapRun && !manyFrames && !c09 && r.chance(1, 40);  // > 127 / > 255 messages in one frame
         if (swarmOfTiny)
         {
             nMsg = 120 + r.below(200);
@@ -260,6 +276,14 @@ Plan genCodec(const std::string& prop, int tier, uint64_t batchSeed, uint64_t id
                 g.fillMsg(m, kinds, maxB, freeBytes, maxFramesPerMsg);
                 if (swarmOfTiny)
                     m.set("kind", 0).set("len", r.range(1, 4)).set("mtype", 1).set("ptype", 0x20);
+                if (manyFrames && i == 0)
+                {
+                    // one frame per message: 250..600 of them
+                    m.set("kind", 0).set("len", std::max<int64_t>(1, maxB - 24 - r.range(0, 1))).set("mtype", 1).set("ptype", 0x20).set("rep", r.range(250, 600));
+                    g.nextMsgId += 700;
+                }
+                if (maxB == 65559 && r.chance(1, 4))
+                    m.set("kind", 0).set("mtype", 1).set("ptype", 0x20).set("len", 65535 - r.range(0, 2));  // the largest packet exactly fits the largest frame
                 if (!msgs.empty() && r.chance(1, 10))
                 {
                     // same header fields as the previous message (only the content differs)
